@@ -138,6 +138,41 @@ pub fn guard<R>(f: impl FnOnce() -> Result<R, Fail>) -> Result<R, Fail> {
     }
 }
 
+// ---------------------------------------------------------------------------------------------
+// Non-termination: every case in flight is registered; a monitor thread (started by `main`) hands a case that
+// has been running for longer than the per-case limit to `HangHandler`, which confirms it in an isolated process.
+
+pub struct InflightEntry {
+    pub sub: String,
+    pub since: Instant,
+    pub case: Box<dyn Fn() -> Value + Send>,
+}
+static INFLIGHT: Mutex<BTreeMap<u64, InflightEntry>> = Mutex::new(BTreeMap::new());
+static INFLIGHT_ID: std::sync::atomic::AtomicU64 = std::sync::atomic::AtomicU64::new(0);
+
+pub struct Inflight(u64);
+impl Inflight {
+    pub fn enter(sub: &str, case: Box<dyn Fn() -> Value + Send>) -> Inflight {
+        let id = INFLIGHT_ID.fetch_add(1, Ordering::Relaxed);
+        INFLIGHT.lock().unwrap().insert(id, InflightEntry { sub: sub.to_string(), since: Instant::now(), case });
+        Inflight(id)
+    }
+}
+impl Drop for Inflight {
+    fn drop(&mut self) {
+        INFLIGHT.lock().unwrap().remove(&self.0);
+    }
+}
+
+/// The oldest case in flight that has exceeded `limit`: (sub, serialized case, seconds running).
+pub fn overdue_case(limit: std::time::Duration) -> Option<(String, Value, f64)> {
+    let g = INFLIGHT.lock().unwrap();
+    g.values()
+        .filter(|e| e.since.elapsed() > limit)
+        .max_by(|a, b| a.since.elapsed().cmp(&b.since.elapsed()))
+        .map(|e| (e.sub.clone(), (e.case)(), e.since.elapsed().as_secs_f64()))
+}
+
 /// A sub-check of a property (object safe so that a property is a list of them).
 pub trait Sub: Sync {
     fn name(&self) -> &str;
@@ -199,7 +234,7 @@ struct ThreadAcc {
 
 impl<T, S, MK, F> Sub for PropSub<T, S, MK, F>
 where
-    T: std::fmt::Debug + Clone + Serialize + DeserializeOwned,
+    T: std::fmt::Debug + Clone + Serialize + DeserializeOwned + Send + 'static,
     MK: Fn() -> S + Sync,
     S: Strategy<Value = T>,
     F: Fn(&T, &mut CaseInfo) -> Result<(), Fail> + Sync,
@@ -241,7 +276,12 @@ where
                             return Ok(());
                         }
                         let mut info = CaseInfo::default();
+                        let inflight = {
+                            let c = case.clone();
+                            Inflight::enter(self.name, Box::new(move || serde_json::to_value(&c).unwrap_or(Value::Null)))
+                        };
                         let r = guard(|| (self.check)(&case, &mut info));
+                        drop(inflight);
                         let mut a = acc.borrow_mut();
                         let counting = !a.failed;
                         match r {
